@@ -75,3 +75,9 @@ Proof.
   vm_compute. reflexivity.
 Qed.
 Print Assumptions verify_pinned_refuted.
+
+(* D9: a 6-byte chunk crashed LinkFrame.Unseal on the pinned tree *)
+From Verif Require Import LinkFrame.
+Theorem lf_unseal_pinned_refuted : exists chunk, snd (lf_unseal_pinned [] sh_init chunk) = Panic.
+Proof. exists [0;6;1;0;0;0]. reflexivity. Qed.
+Print Assumptions lf_unseal_pinned_refuted.
